@@ -8,12 +8,14 @@ import sys
 import traceback
 
 
-def run_one(module, fn, call, known_on):
+def run_one(module, fn, call, known_on, ctx=None):
     from . import hlib, findings
 
+    ctx = ctx or {}
     hlib.MODE = "check"
-    hlib.PART = 0
-    hlib.NPARTS = 1
+    hlib.PART = ctx.get("part", 0)
+    hlib.NPARTS = ctx.get("nparts", 1)
+    hlib.TIER = ctx.get("tier", "quick")
     hlib.REPLAY = True
     hlib.KNOWN = findings.Findings() if known_on else None
     hlib.DETAIL.clear()
@@ -37,10 +39,10 @@ def main():
     known_on = os.environ.get("VF_KNOWN", "on") != "off"
     sys.setrecursionlimit(5000)
     if "batch" in req:
-        res = [run_one(r["module"], r["fn"], r["call"], known_on) for r in req["batch"]]
+        res = [run_one(r["module"], r["fn"], r["call"], known_on, r.get("ctx")) for r in req["batch"]]
         print("REPLAY-RESULT " + json.dumps({"batch": res}, default=repr))
     else:
-        print("REPLAY-RESULT " + json.dumps(run_one(req["module"], req["fn"], req["call"], known_on), default=repr))
+        print("REPLAY-RESULT " + json.dumps(run_one(req["module"], req["fn"], req["call"], known_on, req.get("ctx")), default=repr))
     try:
         hlib_env = sys.modules["vf.env_model"].ENV
         if hlib_env is not None:
